@@ -2,6 +2,8 @@
 canonical line the decoders are expected to print, and the same values as Coq terms of
 XdrModel.Spec.  This is the Python mirror of Spec.v (enc / rv / nF1 / step_exact); every run
 cross-checks the two on the generated cases."""
+import sys
+sys.setrecursionlimit(50000)
 import struct
 
 import coqterm as ct
@@ -523,5 +525,53 @@ def spec_has_f1_array(cx):
                 pos = [{"Var": [t["Typedef"]["target"], a["Var"][1]]}]
         for a in pos:
             if "Var" in a and isinstance(a["Var"][0], dict) and type_has_f1(cx, a["Var"][0]["Ident"]):
+                return True
+    return False
+
+
+def _positions(t):
+    """(array_type json) positions of a declared type"""
+    if "Struct" in t:
+        return [f["value"] for f in t["Struct"]["fields"]]
+    if "Union" in t:
+        u = t["Union"]
+        pos = [c["value"] for c in u["cases"]]
+        if u["default"] is not None:
+            pos.append(u["default"]["value"])
+        return pos
+    if "Typedef" in t:
+        a = t["Typedef"]["alias"]
+        tg = t["Typedef"]["target"]
+        if "Var" in a:
+            return [{"Var": [tg, a["Var"][1]]}]
+        if "Fixed" in a:
+            return [{"Fixed": [tg, a["Fixed"][1]]}]
+        return [{"None": tg}]
+    return []
+
+
+def spec_has_self_nested_array(cx):
+    """is there a counted array that can contain, at any depth, a counted array of the same
+    declaration (finding F15: every level reserves min(count, remaining))?"""
+    edges = {}
+    for k, t in cx.types.items():
+        for a in _positions(t):
+            kind = "Var" if "Var" in a else ("Fixed" if "Fixed" in a else "None")
+            b = a[kind][0] if kind != "None" else a["None"]
+            if isinstance(b, dict) and "Ident" in b:
+                edges.setdefault(k, []).append((b["Ident"], kind == "Var"))
+
+    def reach(src):
+        seen, todo = set(), [src]
+        while todo:
+            x = todo.pop()
+            for y, _ in edges.get(x, []):
+                if y not in seen:
+                    seen.add(y)
+                    todo.append(y)
+        return seen
+    for k, es in edges.items():
+        for y, is_var in es:
+            if is_var and (y == k or k in reach(y)):
                 return True
     return False
